@@ -21,9 +21,9 @@ CLAIMS = {
         "model_checking",
         "explicit-state BFS over cd/pushd/popd/dirs histories executed on the real aliases, invariants + reference for +N/-N",
         "seqx",
-        "Breadth-first search over all histories (depth 4 quick / 6 thorough, 54-event alphabet incl. env toggles and a vanishing directory) of the real cd/pushd/popd/dirs aliases on a real symlinked tree in a capability-dropped process; every transition is checked against the clauses of the statement (samefile($PWD,cwd), $OLDPWD, failed op changes nothing and reports, size bound, pushd;popd identity, documented +N/-N selection and rotation). States are deduplicated on a canonical projection, so the claim is 'all reachable states up to the completed depth'.",
+        "Breadth-first search over all histories (depth 4 quick / 6 thorough, 62-event alphabet incl. env toggles, a vanishing directory, an external chdir + _fix_cwd, and the path-literal cd() context manager built at one state and entered at a later one) of the real cd/pushd/popd/dirs aliases on a real symlinked tree in a capability-dropped process; every transition is checked against the clauses of the statement (samefile($PWD,cwd), $OLDPWD, failed op changes nothing and reports, size bound, pushd;popd identity, documented +N/-N selection and rotation). States are deduplicated on a canonical projection, so the claim is 'all reachable states up to the completed depth'.",
         "Trusts the reference selection rules written from the command docstrings; relative `pushd -n` arguments, Windows UNC branches and power-loss are out of scope; if capset is refused the unsearchable-directory symbols lose their meaning (recorded in evidence).",
-        "DESIGN.md §3 C16",
+        "DESIGN.md §3 C16, §9",
     ),
     "C11": (
         "model_checking",
